@@ -313,6 +313,7 @@ func TestC02Scalar(t *testing.T) { rapid.Check(t, propC02Scalar) }
 
 func TestRegressC02(t *testing.T) {
 	c02MapEncoderAfterPanic(t)
+	c02UserReflectedEncoderSeesEveryValue(t)
 	enc := func(fs ...zapcore.Field) string {
 		buf, err := zapcore.NewJSONEncoder(zapcore.EncoderConfig{}).EncodeEntry(zapcore.Entry{}, fs)
 		if err != nil {
